@@ -58,6 +58,7 @@ def write_replay(prop, case):
            "config": _jsonable(case.get("config")),
            "observed": _jsonable(case.get("observed")),
            "expected": _jsonable(case.get("expected")),
+           "environment": {k: os.environ[k] for k in ("PYTHONOPTIMIZE", "PYTHONHASHSEED", "VERIF_ONE_CPU") if os.environ.get("VERIF_CONFIG_PASS") and k in os.environ},
            "case_repr": text}
     with open(path, "w") as f:
         json.dump(doc, f, indent=1, default=str)
@@ -76,6 +77,57 @@ def read_replay(path):
     with open(path) as f:
         doc = json.load(f)
     return doc["property"], ast.literal_eval(doc["case_repr"])
+
+
+def replay_environment(path):
+    with open(path) as f:
+        return json.load(f).get("environment") or {}
+
+
+PASSES = [("optimize", "interpreter with assertions stripped (python -O: __debug__ is False)", {"PYTHONOPTIMIZE": "1"}),
+          ("hashseed", "another string-hash seed (set and dict orders of strings differ)", {"PYTHONHASHSEED": "4242"}),
+          ("onecpu", "every worker process restricted to one CPU (os.sched_getaffinity reports a single core)", {"VERIF_ONE_CPU": "1"})]
+LIGHT_FRACTION = 6
+
+
+def configuration_passes(prop, tier, seed, jobs):
+    """The same check under other interpreter configurations a user can legitimately choose, each in a process tree of its own and on
+    every LIGHT_FRACTION-th shard (rotated by VERIF_SEED).  Their VIOLATION lines are printed by the passes themselves (each confirms
+    and records its cases like the main run; the replay file names the environment it needs)."""
+    import subprocess
+    import tempfile
+    procs = []
+    for name, what, env in PASSES:
+        tmp = tempfile.mkdtemp(prefix="crverif_pass_")
+        e = dict(os.environ, VERIF_CONFIG_PASS=name, VERIF_LIGHT=str(LIGHT_FRACTION), CR_VERIF_EVIDENCE_DIR=tmp, **env)
+        p = subprocess.Popen([sys.executable, "-m", "mc.cli", prop, "--tier", tier, "--seed", str(seed), "--jobs", str(jobs)],
+                             cwd=HERE, env=e, stdout=subprocess.PIPE, stderr=subprocess.STDOUT, text=True)
+        procs.append((name, what, env, tmp, p, time.time()))
+    rc, out = 0, []
+    for name, what, env, tmp, p, t0 in procs:
+        text = p.communicate()[0]
+        summary = {"pass": name, "configuration": what, "environment": env, "shards": "every %d-th shard of the plan" % LIGHT_FRACTION,
+                   "exit": p.returncode, "wall_s": round(time.time() - t0, 1)}
+        try:
+            files = [f for f in os.listdir(tmp) if f.endswith(".json")]
+            ev = json.load(open(os.path.join(tmp, files[0])))
+            c = ev.get("coverage", {})
+            summary.update({"states": c.get("states"), "transitions": c.get("transitions"), "validated": c.get("traces_validated_against_impl"),
+                            "violations": ev.get("violations")})
+        except Exception:                                    # noqa: BLE001
+            pass
+        import shutil
+        shutil.rmtree(tmp, ignore_errors=True)
+        for line in text.splitlines():
+            if line.startswith(("VIOLATION", "UNCONFIRMED", "HARNESS", "Traceback")) or (line.startswith("  ") and p.returncode == 1):
+                print(("[configuration %s] " % name if not line.startswith("VIOLATION") else "") + line)
+        if p.returncode == 1:
+            rc = 1
+        elif p.returncode != 0 and rc == 0:
+            rc = 2
+            print(text[-1500:])
+        out.append(summary)
+    return rc, out
 
 
 def confirm(mod, case):
@@ -120,6 +172,12 @@ def main(argv=None):
         from . import par
         mod = importlib.import_module("mc.props." + prop.lower())
         if args.replay:
+            need = replay_environment(args.replay)
+            if any(os.environ.get(k) != v for k, v in need.items()):
+                # recorded by a configuration pass: replay under the same interpreter configuration
+                import subprocess
+                e = dict(os.environ, VERIF_CONFIG_PASS="replay", **need)
+                return subprocess.run([sys.executable, "-m", "mc.cli", prop, "--replay", args.replay], cwd=HERE, env=e).returncode
             p2, case = read_replay(args.replay)
             if p2 != prop:
                 print("replay file is for %s" % p2)
@@ -132,7 +190,14 @@ def main(argv=None):
             print("replayed: no violation on the current tree")
             return 0
         ctx = Ctx(prop, args.tier, seed, args.jobs or par.default_jobs())
-        report = mod.run(ctx)
+        try:
+            report = mod.run(ctx)
+        except par.GuardError as e:
+            if not par.LIGHT:
+                raise
+            # a light configuration pass explores a fraction of the shards: count and vacuity guards do not apply to it
+            print("configuration pass: guard not applicable to a partial run (%s)" % e)
+            report = {"coverage": {"exhaustive": False}, "violations": []}
     except Exception:                                        # noqa: BLE001
         print("HARNESS-ERROR property=%s" % prop)
         traceback.print_exc()
@@ -174,6 +239,9 @@ def main(argv=None):
 
     cov = report.get("coverage", {})
     cov.setdefault("exhaustive", True)
+    pass_rc = 0
+    if not os.environ.get("VERIF_CONFIG_PASS") and not os.environ.get("VERIF_NO_CONFIG_PASSES"):
+        pass_rc, cov["configuration_passes"] = configuration_passes(prop, args.tier, seed, ctx.jobs)
     evidence = {"property_id": prop, "tier": args.tier, "seed": seed, "level": "model_checking",
                 "coverage": cov, "assumptions": report.get("assumptions", []),
                 "wall_s": round(time.time() - t0, 2), "violations": len(violations),
@@ -193,8 +261,11 @@ def main(argv=None):
     print("%s %s: states=%s transitions=%s validated=%s nontrivial=%s exhaustive=%s wall=%.1fs violations=%d"
           % (prop, args.tier, cov.get("states"), cov.get("transitions"), cov.get("traces_validated_against_impl"),
              cov.get("distinct_nontrivial"), cov.get("exhaustive"), time.time() - t0, len(violations)))
-    if printed:
+    if printed or pass_rc == 1:
         return 1
+    if pass_rc == 2:
+        print("HARNESS-ERROR property=%s: a configuration pass failed" % prop)
+        return 2
     if harness_error:
         print("HARNESS-ERROR property=%s: violations were found but none could be confirmed by replay" % prop)
         return 2
